@@ -11,6 +11,15 @@ Monitors
   handler registrations / other external inputs arrive and it runs again; the model re-analyses the diagram as it stands at
   every execute(), so anything the executor carries over from an earlier run (wire index, inputs, verdicts) shows as a
   `...+later-phase` violation;
+* re-entrant executions (`case["reenter"]`): at scripted points a handler stub runs the diagram again before it returns - on the
+  same executor or on a second executor over the same diagram, with external inputs of its own (fresh payload tokens; relabelled,
+  dropped or invalid variants), up to two levels deep. A stack of execution frames keeps calls / delivered inputs / tokens per
+  execution; every execution, outer and nested, has its own model analysis and is judged by the same obligations
+  (`...+nested-run` / `...+around-nested-run` keys). Same thread only: the executor has no lock;
+* capabilities across diagrams (`run_capshare`): several diagrams are built from one pool of ModuleSpec objects (specs shared
+  between diagrams, specs built from one capability-set object, equal-but-distinct sets), add_module() and
+  required_capabilities() are interleaved in scripted orders with repeats, every answer is compared with the union of the
+  capabilities as originally declared (own frozen copies), and finally every spec is put into a fresh one-module diagram;
 * handler stubs return their ports in program order, which the generators permute against the declaration order
   (outputs are identified by name; payload tokens name the port they were returned for);
 * a `sys.monitoring` LINE hit counter on `DiagramExecutor.execute` turns a non-terminating scheduling loop into a
@@ -30,20 +39,31 @@ TECHNIQUE = ("runtime monitoring: acceptance oracle at connect(), invariant-chec
              "provenance tokens, executable wiring/Kahn reference model for the outcome, report cross-check, "
              "sys.monitoring LINE step counter on the scheduling loop")
 RULE = ("cases = sweeps (21x21 PortType pairs at connect; declared-port x returned-label; port x external-label; every "
-        "digraph on <=3 modules x every insertion order, one-shot and grown wire by wire under one executor that runs after every "
-        "connect; 21x21 pairs of output ports returned in reversed order; fixed fault scenarios incl. diagrams changed between two "
-        "executions) then seeded random diagrams (valid / fault-injected / unconstrained; ~30% as multi-phase histories on one "
-        "executor, ~60% with permuted handler return order); non-trivial = >=2 modules and >=1 accepted wire and the executor "
+        "digraph on <=3 modules x every insertion order, one-shot, grown wire by wire under one executor that runs after every "
+        "connect, and with each / all handlers re-entering execute() on the same or a second executor; 21x21 pairs of output ports "
+        "returned in reversed order; fixed fault scenarios incl. diagrams changed between two executions and re-entrant chains; "
+        "5 diagrams sharing spec / capability-set objects x all 120 query orders x 12 set pairs) then seeded random cases (8% "
+        "capability cases over diagrams sharing ModuleSpec / capability-set objects, not counted as non-trivial; the rest diagrams: "
+        "valid / fault-injected / unconstrained; ~30% as multi-phase histories on one executor, ~60% with permuted handler return "
+        "order, ~25% with 1-3 scripted re-entrant executions); non-trivial = >=2 modules and >=1 accepted wire and the executor "
         "was run; distinct = (per-module in/out degree in insertion order, multiset of (source, destination) integrity pairs "
-        "over the wires, model problem tags per phase, mislabel kinds, outcome per run, static-check flag)")
+        "over the wires, model problem tags per phase, mislabel kinds, outcome per run, static-check flag, (depth, executor, "
+        "external-input variant, outcome) per nested execution)")
 ASSUMPTIONS = [
-    "handlers return a dict (or None) and do not raise or mutate the inputs mapping they receive",
+    "handlers return a dict (or None) and do not raise or mutate the inputs mapping they receive (a nested execute() a handler "
+    "starts is wrapped: its WiringError stays inside the handler)",
     "a module without declared outputs needs no handler (it is recorded as executed); 'missing handler' means a module with outputs and no handler",
     "handler port-set mismatches (missing/extra keys, None return) and external inputs addressed to unknown modules/ports are not judged for report-vs-error; every delivered value is still checked",
     "at connect()/require_flow_to() any exception counts as 'not accepted'; from execute() only WiringError counts as a wiring error",
     "a schedulable diagram with conforming handlers and valid external inputs must return a report (a wiring error there is a violation)",
     "every execute() is judged against the diagram, handlers and external inputs as they stand when it is entered: modules/wires added "
     "through add_module()/connect() after an earlier execute() on the same executor count",
+    "an execute() started from inside a handler (same thread; on the same executor or on another executor over the same diagram) is an "
+    "execution of its own: it and the execution surrounding it must each run every module exactly once, in order, with their own "
+    "external inputs and values, and return a complete report or raise a wiring error - according to their own inputs only",
+    "'the union over modules' refers to the capabilities each module was declared with: a ModuleSpec or a capability-set object may be "
+    "shared by several diagrams, and asking one diagram must not change what another diagram (or a later, fresh one) answers; the caller "
+    "never mutates a returned set",
     "a handler's outputs are identified by port name; the order of the keys in the returned dict carries no meaning",
     "which callable runs after register_module() is called again for the same module is recorded, not judged",
     "diagrams are built through add_module()/connect() only (no wires forged into diagram.wires), so enforce_static_checks on/off must not change any verdict",
@@ -154,6 +174,15 @@ class Monitors:
         if self.hits:
             self.max_hits = max(self.max_hits, max(self.hits.values()))
 
+    def suspend(self):
+        """Entering a nested execute(): put the counters of the surrounding one aside (the LINE events are per code object)."""
+        saved = (self.armed, self.hits, self.bound)
+        self.armed = False
+        return saved
+
+    def resume(self, saved):
+        self.armed, self.hits, self.bound = saved
+
 
 MON = Monitors()
 
@@ -186,6 +215,8 @@ def _sweeps():
             items.append(("digraph", n, mask))
     for i in range(len(SCENARIOS)):
         items.append(("scenario", i))
+    for k in range(len(CAP_XY)):
+        items.append(("capshare", k))
     return items
 
 
@@ -244,10 +275,24 @@ def _scenarios():
         sc.append(M.build_history(_chain(list(order)), [[]], runs=[2]))
     for order in itertools.permutations("abcd"):
         sc.append(_late_chain(order))
+    # re-entrant executions: a handler of the chain runs the diagram again (same / second executor, own external inputs)
+    for order in itertools.permutations("abc"):
+        for who in "abc":
+            for target in ("same", "other"):
+                sc.append(M.reentry_one(_chain(list(order)), who, target))
+                for mode in ("same", "top", "drop", "bad"):
+                    for ext_on in (("b", "i"), ("c", "i")):
+                        sc.append(M.reentry_one(_chain(list(order), ext_on=ext_on, missing=ext_on), who, target, mode))
+            sc.append(M.reentry_one(M.reentry_one(_chain(list(order)), who, "same"), who, "other", depth=1))
+        sc.append(M.reentry_all(_chain(list(order)), "same", depth2=True))
+        sc.append(M.reentry_all(M.build_history(_chain(list(order)), [[1]], temp_ext={("c", "i"): ["raw"]}, runs=[2]), "same"))
+    for order in itertools.permutations("abcd"):
+        sc.append(M.reentry_all(_late_chain(order), "same" if order[0] < order[1] else "other"))
     return sc
 
 
 SCENARIOS = _scenarios()
+CAP_XY = [(x, y) for x in ((), (0,), (0, 1)) for y in ((), (1,), (2,), (0, 2))]
 SWEEP = _sweeps()
 
 
@@ -273,6 +318,14 @@ def plan(tier):
                 "later_phase:report->error": 200, "later_phase:error->report": 200, "later_phase:report->report": 500,
                 "handlers_replaced_between_executions": 100,
                 "handler_returns_in_other_than_declared_order": 2000, "reordered_returns_across_differing_ports": 1000,
+                "nested_executions": 5000, "nested_executions_on_same_executor": 3000, "nested_executions_on_other_executor": 2000,
+                "nested_executions_at_depth_2": 800, "nested_outcome:report": 3000, "nested_outcome:error": 2000,
+                "nested_executions_with_external_inputs_of_their_own": 3000, "outer_executions_with_nested_runs": 4000,
+                "outer_outcome_around_nested_runs:report": 3000, "outer_outcome_around_nested_runs:error": 1000,
+                "handler_invocations_after_a_nested_run_returned": 3000,
+                "capshare_cases": 1500, "capshare_queries": 20000, "capshare_queries_on_diagram_sharing_a_spec_object": 10000,
+                "capshare_queries_on_diagram_sharing_a_capability_set_object": 5000, "capshare_repeated_queries": 15000,
+                "capshare_queries_on_multi_module_diagram": 8000, "capshare_fresh_single_module_probes": 6000,
                 "loop_monitor_line_events": 100000,
                 "reach:PortType.can_flow_to": 441, "reach:PortType.require_flow_to": 1000,
                 "reach:WiringDiagram.connect": 1000, "reach:WiringDiagram.required_capabilities": 1000,
@@ -294,9 +347,13 @@ def run_case(ctx, n):
             return sweep_outorder(ctx, item[1])
         if kind == "digraph":
             return sweep_digraph(ctx, item[1], item[2])
+        if kind == "capshare":
+            return sweep_capshare(ctx, item[1])
         return run_diagram(ctx, copy.deepcopy(SCENARIOS[item[1]]))
     t = T()
     rng = ctx.rng(n)
+    if rng.random() < 0.08:
+        return run_capshare(ctx, M.gen_capshare(rng, t["CAPS"]), "random")
     r = rng.random()
     if r < 0.18:
         case = M.gen_chaos(rng, t["DT"], t["LB"], t["CAPS"])
@@ -312,6 +369,8 @@ def run_case(ctx, n):
         M.split_phases(case, rng, t["DT"], t["LB"])
     if rng.random() < 0.6:
         M.permute_handler_orders(case, rng)
+    if rng.random() < 0.25:
+        M.add_reentry(case, rng)
     run_diagram(ctx, case)
 
 
@@ -423,6 +482,87 @@ def sweep_digraph(ctx, n, mask):
             # the same digraph grown wire by wire under one executor that runs after every connect()
             # (ports not wired yet are fed externally, so every prefix graph is judged on its own)
             run_diagram(ctx, M.incremental(M.digraph_case(n, mask, list(order), dt, lb)))
+        # re-entrant executions: each module's handler alone, then all of them, run the diagram again while it is executing
+        for target in ("same", "other"):
+            for i in range(n):
+                run_diagram(ctx, M.reentry_one(M.digraph_case(n, mask, list(order), dt, lb), "m%d" % i, target))
+            if n > 1:
+                run_diagram(ctx, M.reentry_all(M.digraph_case(n, mask, list(order), dt, lb), target, depth2=(mask % 2 == 1)))
+
+
+# ---------------------------------------------------------------------------- capabilities of diagrams that share specs
+def sweep_capshare(ctx, k):
+    t = T()
+    x, y = CAP_XY[k]
+    x, y = [t["CAPS"][i] for i in x], [t["CAPS"][i] for i in y]
+    for perm in itertools.permutations(range(5)):
+        run_capshare(ctx, M.capshare_sweep(x, y, list(perm)), "sweep")
+
+
+def run_capshare(ctx, case, origin):
+    """Several diagrams built from one pool of ModuleSpec objects (some specs built from the same capability-set object);
+    add_module() and required_capabilities() interleaved in a scripted order; every answer is compared with the union of
+    the capabilities ORIGINALLY declared (own frozen copies) for the modules the diagram holds at that moment."""
+    t = T()
+    W, TY = t["wagent"], t["types"]
+    ctx.count("capshare_cases")
+    set_objs = [{TY.Capability(c) for c in cs} for cs in case["sets"]]
+    specs, declared = [], []
+    for sp in case["specs"]:
+        if sp["set"] is not None:
+            obj, decl = set_objs[sp["set"]], case["sets"][sp["set"]]
+        else:
+            obj, decl = {TY.Capability(c) for c in sp["caps"]}, sp["caps"]
+        specs.append(W.ModuleSpec(name=sp["name"], capabilities=obj))
+        declared.append(frozenset(TY.Capability(c) for c in decl))
+    diagrams = [W.WiringDiagram() for _ in range(case["ndiagrams"])]
+    members = [[] for _ in diagrams]
+    queried = [0] * len(diagrams)
+    log = []
+
+    def ask(diagram, held, where, mech):
+        exp = frozenset().union(*[declared[j] for j in held])
+        got = diagram.required_capabilities()
+        ok = isinstance(got, (set, frozenset)) and got == exp
+        log.append([where, sorted(c.value for c in got) if isinstance(got, (set, frozenset)) else repr(got)])
+        if not ok:
+            ctx.violation(mech, "%s: required_capabilities() = %s, but its modules %s declared %s" % (
+                where, log[-1][1], [case["specs"][j]["name"] for j in held], sorted(c.value for c in exp)),
+                dict(case, origin=origin, answers=list(log)))
+        return ok
+
+    for op in case["ops"]:
+        d = op[1]
+        if op[0] == "add":
+            j = op[2]
+            if any(case["specs"][i]["name"] == case["specs"][j]["name"] for i in members[d]):
+                continue       # the name is taken in that diagram
+            diagrams[d].add_module(specs[j])
+            members[d].append(j)
+            ctx.count("capshare_modules_added")
+            continue
+        ctx.count("capshare_queries")
+        ctx.count("capability_unions_checked")
+        if queried[d]:
+            ctx.count("capshare_repeated_queries")
+        queried[d] += 1
+        others = [j for e, ms in enumerate(members) if e != d for j in ms]
+        if any(j in others for j in members[d]):
+            ctx.count("capshare_queries_on_diagram_sharing_a_spec_object")
+        mine = {case["specs"][j]["set"] for j in members[d]} - {None}
+        if any(case["specs"][j]["set"] in mine for j in others if j not in members[d]):
+            ctx.count("capshare_queries_on_diagram_sharing_a_capability_set_object")
+        if len(members[d]) >= 2:
+            ctx.count("capshare_queries_on_multi_module_diagram")
+        if not ask(diagrams[d], members[d], "diagram %d holding %s" % (d, members[d]), "capabilities-not-union+specs-shared-between-diagrams"):
+            return
+    # what every spec declares now, observed through the statement's own query on a fresh one-module diagram
+    for j, spec in enumerate(specs):
+        fresh = W.WiringDiagram()
+        fresh.add_module(spec)
+        ctx.count("capshare_fresh_single_module_probes")
+        if not ask(fresh, [j], "fresh diagram holding only spec %d" % j, "capabilities-not-union+spec-reused-after-queries"):
+            return
 
 
 # ---------------------------------------------------------------------------- one diagram under the monitors
@@ -430,6 +570,8 @@ def brief(case):
     d = {k: case[k] for k in ("modules", "attempts", "handlers", "ext", "enforce", "runs", "faults")}
     if case.get("phases"):
         d["phases"] = case["phases"]
+    if case.get("reenter"):
+        d["reenter"] = case["reenter"]
     return d
 
 
@@ -439,11 +581,20 @@ class PhaseCtx:
     def __init__(self, ctx):
         self.ctx = ctx
         self.phase = 0
+        self.frames = []
 
     def count(self, name, k=1):
         self.ctx.count(name, k)
 
     def violation(self, mechanism, what, witness):
+        if self.frames:
+            f = self.frames[-1]
+            if f["depth"]:
+                mechanism += "+nested-run"
+                witness = dict(witness, nested_run=f["origin"])
+            elif f["nested"]:
+                mechanism += "+around-nested-run"
+                witness = dict(witness, nested_runs=list(f["nested"]))
         if self.phase:
             mechanism += "+later-phase"
             witness = dict(witness, phase=self.phase)
@@ -464,16 +615,24 @@ def run_diagram(ctx, case):
     diagram = W.WiringDiagram()
     ex = None
     accepted = []
-    state = {"run": 0, "calls": [], "seen": {}, "poison": set(), "rejected_invoked": None}
+    frames = ctx.frames    # stack of executions in progress; frames[-1] is the one whose handlers are being invoked
+    del frames[:]
     outcomes = []
     problem_hist = []
+    nest_hist = []
+    reentry = {}
+    for ent in case.get("reenter") or []:
+        reentry.setdefault((ent["depth"], ent["module"]), []).append(ent)
+    need_other = any(ent["target"] == "other" for ent in case.get("reenter") or [])
+    ex_other = None
+    nested_an = {}
 
     # ---- value bookkeeping
     def token(mname, port, run):
-        return "%s.%s@%d" % (mname, port, run)
+        return "%s.%s@%s" % (mname, port, run)
 
-    def ext_token(mname, port):
-        return "ext:%s.%s@%d" % (mname, port, state["run"])
+    def ext_token(mname, port, run):
+        return "ext:%s.%s@%s" % (mname, port, run)
 
     def build(spec, tok):
         if spec[0] == "raw":
@@ -482,9 +641,9 @@ def run_diagram(ctx, case):
             return None
         return RT.TypedValue(TY.DataType(spec[1]), TY.IntegrityLabel(spec[2]), tok)
 
-    def check_inputs(mname, inputs, where):
-        """I2 + I4 on the inputs a module was given (at the stub, and again in the report)."""
-        mods, an = cur["mods"], cur["an"]
+    def check_inputs(state, mname, inputs, where):
+        """I2 + I4 on the inputs a module was given in the execution `state` (at the stub, and again in the report)."""
+        mods, an = cur["mods"], state["an"]
         decl = mods[mname]["inputs"]
         try:
             keys = set(inputs.keys())
@@ -534,7 +693,7 @@ def run_diagram(ctx, case):
                         where, mname, p, int(v.integrity), sm, sp, mods[sm]["outputs"][sp][1]), dict(desc, module=mname, port=p))
             else:
                 spec = s[1]
-                if v.value != ext_token(mname, p):
+                if v.value != ext_token(mname, p, state["run"]):
                     ctx.violation("delivered-foreign-value", "%s: %s.%s has only an external source but received %r" % (
                         where, mname, p, v.value), dict(desc, module=mname, port=p))
                 if spec[0] == "tv" and int(v.integrity) > spec[2]:
@@ -543,8 +702,11 @@ def run_diagram(ctx, case):
 
     def make_stub(mname, prog):
         def stub(inputs):
-            mods, an = cur["mods"], cur["an"]
+            state = frames[-1]      # the execution that is invoking this handler
+            mods, an = cur["mods"], state["an"]
             ctx.count("handler_invocations")
+            if state["nested"]:
+                ctx.count("handler_invocations_after_a_nested_run_returned")
             run = state["run"]
             if view["handlers"].get(mname) is not prog:
                 ctx.count("replaced_handler_invoked(recorded-not-judged)")   # which registration wins is outside the statement
@@ -568,7 +730,12 @@ def run_diagram(ctx, case):
             state["calls"].append(mname)
             snap = dict(inputs)
             state["seen"][mname] = snap
-            check_inputs(mname, snap, "at handler")
+            check_inputs(state, mname, snap, "at handler")
+            # scripted re-entry: this handler starts further executions of the diagram before it returns
+            for ent in reentry.get((state["depth"], mname), ()):
+                execute_once(ent, state)
+            if frames[-1] is not state:
+                ctx.violation("execution-stack-unbalanced", "nested execute() did not return to the handler that started it", desc)
             if prog.get("ret_none"):
                 return None
             out = {}
@@ -586,6 +753,81 @@ def run_diagram(ctx, case):
                     ctx.count("reordered_returns_across_differing_ports")
             return out
         return stub
+
+    def execute_once(ent, parent):
+        """One execute() under the monitors, judged on its own. ent/parent = None: an outermost execution of the current
+        phase; otherwise the execution a handler of `parent` starts according to the re-entry script entry `ent`."""
+        if parent is None:
+            depth, run, ext_specs, an, enforce, executor = 0, len(outcomes), view["ext"], cur["an"], view["enforce"], ex
+            jview, origin = view, None
+        else:
+            depth = parent["depth"] + 1
+            run = "%s/%d" % (parent["run"], len(parent["nested"]) + 1)
+            mode = ent["ext_mode"]
+            if mode not in nested_an:
+                e = M.nested_ext(view, mode, t["DT"], t["LB"])
+                nested_an[mode] = (e, cur["an"] if e == view["ext"] else M.analyze(dict(view, ext=e), accepted))
+            ext_specs, an = nested_an[mode]
+            enforce = view["enforce"] != bool(ent.get("flip_enforce"))
+            executor = ex if ent["target"] == "same" else ex_other
+            jview = dict(view, ext=ext_specs)
+            origin = {"started_by_handler_of": parent["calls"][-1], "depth": depth, "executor": ent["target"], "ext_mode": mode,
+                      "enforce": enforce}
+        state = {"run": run, "calls": [], "seen": {}, "poison": set(), "rejected_invoked": None, "an": an, "depth": depth,
+                 "nested": [], "origin": origin}
+        ext_real = {mn: {p: build(spec, ext_token(mn, p, run)) for p, spec in ports.items()} for mn, ports in ext_specs.items()}
+        kwargs = {}
+        if not enforce:
+            kwargs["enforce_static_checks"] = False
+        report = None
+        err = None
+        ctx.count("executions")
+        if depth:
+            ctx.count("nested_executions")
+            ctx.count("nested_executions_on_%s_executor" % ent["target"])
+            ctx.count("nested_executions_at_depth_%d" % depth)
+            if ext_real:
+                ctx.count("nested_executions_with_external_inputs_of_their_own")
+        else:
+            if run:
+                ctx.count("second_runs")
+            if k:
+                ctx.count("later_phase_executions")
+        saved = MON.suspend()
+        frames.append(state)
+        MON.arm(bound + 4 * sum(len(v) for v in ext_specs.values()))
+        try:
+            if ext_real or (len(accepted) + depth) % 2:
+                report = executor.execute(ext_real, **kwargs)
+            else:
+                report = executor.execute(**kwargs)
+            outcome = M.REPORT
+        except W.WiringError as e:
+            outcome, err = M.ERROR, e
+        except LoopBudgetExceeded as e:
+            outcome, err = "loop", e
+        except Exception as e:
+            outcome, err = "other", e
+        finally:
+            MON.disarm()
+            MON.resume(saved)
+            del frames[frames.index(state) + 1:]     # (an execution that was abandoned by an exception leaves nothing behind)
+        try:
+            if depth:
+                ctx.count("nested_outcome:" + outcome)
+                ctx.count("nested_expected_%s" % an["expect"])
+            elif state["nested"]:
+                ctx.count("outer_executions_with_nested_runs")
+                ctx.count("outer_outcome_around_nested_runs:" + outcome)
+                if an["expect"] == M.REPORT:
+                    ctx.count("outer_report_expected_around_nested_runs")
+            judge(ctx, jview, desc, an, state, outcome, report, err, check_inputs, token, run)
+        finally:
+            frames.pop()
+        if parent is not None:
+            parent["nested"].append([origin["started_by_handler_of"], ent["target"], ent["ext_mode"], outcome])
+            nest_hist.append((depth, ent["target"], ent["ext_mode"], outcome))
+        return outcome
 
     for k, ph in enumerate(phases):
         ctx.phase = k
@@ -656,12 +898,17 @@ def run_diagram(ctx, case):
 
         if ex is None:
             ex = RT.DiagramExecutor(diagram)
+            if need_other:
+                ex_other = RT.DiagramExecutor(diagram)    # second executor over the same diagram, same handler stubs
         for mname, prog in ph["handlers"].items():
             if k and mname in view["handlers"]:
                 ctx.count("handlers_replaced_between_executions")
             view["handlers"][mname] = prog
             if mname in mods:
-                ex.register_module(mname, make_stub(mname, prog))
+                stub = make_stub(mname, prog)
+                ex.register_module(mname, stub)
+                if ex_other is not None:
+                    ex_other.register_module(mname, stub)
         prev = cur["an"]
         an = cur["an"] = M.analyze(view, accepted)
         problem_hist.append(tuple(sorted(set(an["problems"]))))
@@ -685,45 +932,17 @@ def run_diagram(ctx, case):
         nports = sum(len(m["inputs"]) + len(m["outputs"]) for m in view["modules"])
         next_ = sum(len(v) for v in view["ext"].values())
         bound = 4 * (n * (n + 1) + len(accepted) + nports + next_) + 20
+        nested_an.clear()
 
         for _ in range(ph["runs"]):
-            run = len(outcomes)
-            state.update(run=run, calls=[], seen={}, poison=set(), rejected_invoked=None)
-            ext_real = {mn: {p: build(spec, ext_token(mn, p)) for p, spec in ports.items()} for mn, ports in view["ext"].items()}
-            kwargs = {}
-            if not view["enforce"]:
-                kwargs["enforce_static_checks"] = False
-            report = None
-            err = None
-            ctx.count("executions")
-            if run:
-                ctx.count("second_runs")
-            if k:
-                ctx.count("later_phase_executions")
-            MON.arm(bound)
-            try:
-                if ext_real or len(accepted) % 2:
-                    report = ex.execute(ext_real, **kwargs)
-                else:
-                    report = ex.execute(**kwargs)
-                outcome = M.REPORT
-            except W.WiringError as e:
-                outcome, err = M.ERROR, e
-            except LoopBudgetExceeded as e:
-                outcome, err = "loop", e
-            except Exception as e:
-                outcome, err = "other", e
-            finally:
-                MON.disarm()
-            outcomes.append(outcome)
-            judge(ctx, view, desc, an, state, outcome, report, err, check_inputs, token, run)
+            outcomes.append(execute_once(None, None))
 
     mods, order, an = cur["mods"], cur["order"], cur["an"]
     if len(order) >= 2 and accepted:
         degs = tuple((sum(1 for w in accepted if w[2] == nm), sum(1 for w in accepted if w[0] == nm)) for nm in order)
         labels = tuple(sorted((mods[w[0]]["outputs"][w[1]][1], mods[w[2]]["inputs"][w[3]][1]) for w in accepted))
         raw_ctx.nontrivial((degs, labels, tuple(problem_hist), tuple(sorted(an["mislabelled"].values())),
-                            tuple(outcomes), case["enforce"]))
+                            tuple(outcomes), case["enforce"], tuple(nest_hist)))
     f = [x for x in case["faults"] if x != "history"]
     if "chaos" in f or len(f) == 1 and f[0] in M.FAULTS:
         raw_ctx.sample(dict(desc, outcome=outcomes), cap=3)
@@ -791,7 +1010,7 @@ def judge(ctx, case, desc, an, state, outcome, report, err, check_inputs, token,
             continue
         ctx.count("report_modules_checked")
         me = rmods[m]
-        check_inputs(m, me.inputs, "in report")
+        check_inputs(state, m, me.inputs, "in report")
         if m in state["seen"]:
             seen = state["seen"][m]
             if set(seen) != set(me.inputs) or any(seen[p] != me.inputs[p] for p in seen):
